@@ -178,6 +178,7 @@ pub fn run(args: &Args) -> i32 {
     let shapes = read_ndjson(arg_str(args, "shapes", "shapes.ndjson"));
     let mut out = Out::create(arg_str(args, "out", "trace.ndjson"));
     let mut rng = rng_for(seed, "c09");
+    let mut hung = 0;
     for (si, sh) in shapes.iter().enumerate() {
         let n = sh["n"].as_u64().unwrap();
         let wa = sh["wa"].as_u64().unwrap() as u32;
@@ -185,6 +186,11 @@ pub fn run(args: &Args) -> i32 {
         let rel = sh["rel"].as_str().unwrap();
         let maxbits: u32 = if n == 8 { 500 } else { 1012 };
         for rep in 0..reps {
+            if hung >= 6 {
+                // several calls never returned (each already recorded as an outcome): every further one would
+                // cost a full deadline and leave another spinning thread behind; stop here
+                break;
+            }
             let (a, b) = make_pair(&mut rng, rel, wa, wb, maxbits);
             let case = format!("{}/{}", si, rep);
             let alive = if n == 8 {
@@ -193,6 +199,9 @@ pub fn run(args: &Args) -> i32 {
                 run_pair::<16>(&mut out, &case, sh, &a, &b, true)
             };
             // the wrappers of the modular ring: odd modulus <= 500 bits, residue below it
+            if !alive {
+                hung += 1;
+            }
             if alive && n == 8 && (si + rep as usize) % 4 == 0 {
                 let (mut m, mut x) = if a >= b { (a, b) } else { (b, a) };
                 m |= Uint::ONE;
